@@ -16,6 +16,8 @@ spec fn regex_pool_ok(pool: Seq<Regex>) -> bool {
 
 spec fn regex_ready(re: Regex, npool: int) -> bool {
     regex_wf(re) && re.input_from_position@.len() <= u32::MAX
+    && re.endmarker_position == re.input_from_position@.len()
+    && leaves_bounded(re.arena@, nid(re.root_id), re.input_from_position@.len() as int)
     && (forall|p: int| 0 <= p < re.input_from_position@.len() ==> input_ok(#[trigger] re.input_from_position@[p], npool))
 }
 
@@ -49,6 +51,17 @@ proof fn lemma_pool_ready_push(pool: Seq<Regex>, pool2: Seq<Regex>, v: Regex)
         if i < pool.len() { lemma_regex_ready_mono(pool[i], pool.len() as int, pool2.len() as int); }
         else { lemma_regex_ready_mono(v, pool.len() as int, pool2.len() as int); }
     }
+}
+
+
+/// no within-word item among the positions from `from` on
+spec fn inputs_flat_from(ifp: Seq<RegexInput>, from: int) -> bool {
+    forall|p: int| from <= p < ifp.len() ==> !((#[trigger] ifp[p]) is Subword)
+}
+
+/// the within-word regexes hold no within-word items themselves (words are not nested)
+spec fn pool_flat(pool: Seq<Regex>) -> bool {
+    forall|i: int| 0 <= i < pool.len() ==> inputs_flat_from((#[trigger] pool[i]).input_from_position@, 0)
 }
 
 } // verus!
